@@ -1132,6 +1132,15 @@ pub struct Fs {
     /// and bypass the page cache without plumbing the per-`File`
     /// `direct_io` flag through the kernel-shaped API.
     pub direct_io_fds: indexmap::IndexSet<RawFd>,
+    /// Subset of [`Self::open_handles`] opened without read access
+    /// (write-only). Tracked here for the same reason as
+    /// [`Self::direct_io_fds`]: the io_uring shim only sees a bare
+    /// `RawFd` and must refuse a read through such a descriptor, as
+    /// `File::read_at` does.
+    pub unreadable_fds: indexmap::IndexSet<RawFd>,
+    /// Subset of [`Self::open_handles`] opened without write access
+    /// (read-only); see [`Self::unreadable_fds`].
+    pub unwritable_fds: indexmap::IndexSet<RawFd>,
     /// Next file descriptor to assign.
     next_fd: RawFd,
     /// Probability that writes are randomly synced to durable storage (0.0 - 1.0)
@@ -1177,6 +1186,8 @@ impl Fs {
             pending: Vec::new(),
             open_handles: IndexMap::new(),
             direct_io_fds: indexmap::IndexSet::new(),
+            unreadable_fds: indexmap::IndexSet::new(),
+            unwritable_fds: indexmap::IndexSet::new(),
             next_fd: SIM_FD_BASE,
             sync_probability: config.sync_probability,
             capacity: config.capacity,
